@@ -91,7 +91,7 @@ def run_mc(chk, pid, quick):
                 f.write(mc_cfg(kind, W, B, depth, maxchunk, rndlen, invs, props, allow=allow))
             sub = os.path.join(scratch, "run-%d" % k)
             os.makedirs(sub)
-            res = tlc.run_tlc("MC_Budget", cfg, workers=2, timeout=1800, scratch=sub, heap="3g")
+            res = tlc.run_tlc("MC_Budget", cfg, workers=2, timeout=1800 if quick else 7200, scratch=sub, heap="3g")
             return item, res
 
         with ThreadPoolExecutor(max_workers=8) as ex:
